@@ -158,36 +158,95 @@ pub fn new_topic(p: &mut DcpsDomainParticipant, name: &str) -> InstanceHandle {
     )
 }
 
-/// A publisher / subscriber installed DIRECTLY with the state `create_user_defined_publisher(QosKind::Default, no
-/// listener)` gives it on a participant that is not enabled (participant_methods.rs: handle = participant prefix +
-/// [counter, 0, 0, USER_DEFINED_WRITER_GROUP], `PublisherEntity::new(default qos, handle, empty list, None, mask)`):
-/// used where the real create call (40-80 s of solver time) is not the subject of the check.
-pub fn install_publisher(p: &mut DcpsDomainParticipant) -> InstanceHandle {
+// ---- bottom-up fixtures --------------------------------------------------------------------------------------
+// Entities are built as LOCALS (all Vec headers are constants for symbolic execution) and only then moved into their
+// parent's list: a push into a Vec that already lives inside a heap-stored entity reads a symbolic capacity, and symbolic
+// execution then explores `realloc` with a symbolic size (measured: > 10 GB for one matched entry).
+
+/// Handle `create_user_defined_publisher` gives publisher number `c` (participant_methods.rs).
+pub fn publisher_handle(c: u8) -> InstanceHandle {
+    InstanceHandle::new(Guid::new(sp::PREFIX, EntityId::new([c, 0, 0], crate::transport::types::USER_DEFINED_WRITER_GROUP)).into())
+}
+pub fn subscriber_handle(c: u8) -> InstanceHandle {
+    InstanceHandle::new(Guid::new(sp::PREFIX, EntityId::new([c, 0, 0], crate::transport::types::USER_DEFINED_READER_GROUP)).into())
+}
+
+/// The enabled data writer `create_data_writer(topic, QosKind::Default, no listener)` + `enable_data_writer` produce
+/// as writer number `n` of publisher number `pub_byte` (publisher_methods.rs), as a local value.
+pub fn make_writer(pub_byte: u8, n: u16, topic: &str, qos: DataWriterQos) -> UserDefinedDataWriter {
+    let guid = writer_guid(pub_byte, n);
+    let mut w = UserDefinedDataWriter::new(
+        InstanceHandle::new(guid.into()),
+        RtpsStatefulWriter::new(guid, 1344),
+        String::from(topic),
+        None,
+        sp::mask_from_bits(0),
+        qos,
+    );
+    w.writer.enabled = true;
+    w
+}
+pub fn make_reader(sub_byte: u8, n: u16, topic: &str, qos: DataReaderQos) -> UserDefinedDataReader {
+    let guid = reader_guid(sub_byte, n);
+    let rel = match qos.reliability.kind {
+        crate::infrastructure::qos_policy::ReliabilityQosPolicyKind::BestEffort => ReliabilityKind::BestEffort,
+        crate::infrastructure::qos_policy::ReliabilityQosPolicyKind::Reliable => ReliabilityKind::Reliable,
+    };
+    let mut r = UserDefinedDataReader::new(
+        InstanceHandle::new(guid.into()),
+        qos,
+        String::from(topic),
+        None,
+        sp::mask_from_bits(0),
+        RtpsStatefulReader::new(guid, rel),
+    );
+    r.reader.enabled = true;
+    r
+}
+
+/// Install publisher number `publisher_counter` with the given (0 or 1) finished writer, with the state
+/// `create_user_defined_publisher(QosKind::Default, no listener)` gives it on a participant that is not enabled
+/// (`PublisherEntity::new(default qos, handle, list, None, mask)`); used where the real create call (40-80 s of solver
+/// time, C35's subject) is not the subject of the check.
+pub fn install_publisher_with(p: &mut DcpsDomainParticipant, writer: Option<UserDefinedDataWriter>) -> InstanceHandle {
     let c = p.publisher_counter;
-    let h = InstanceHandle::new(Guid::new(sp::PREFIX, EntityId::new([c, 0, 0], crate::transport::types::USER_DEFINED_WRITER_GROUP)).into());
+    let h = publisher_handle(c);
     p.publisher_counter = c + 1;
+    let mut list = Vec::new();
+    if let Some(w) = writer {
+        list.push(w);
+    }
     let e = crate::dcps::dcps_domain_participant::user_defined_publisher::PublisherEntity::new(
         crate::infrastructure::qos::PublisherQos::const_default(),
         h,
-        Vec::new(),
+        list,
         None,
         sp::mask_from_bits(0),
     );
     p.domain_participant.user_defined_publisher_list.push(e);
     h
 }
-pub fn install_subscriber(p: &mut DcpsDomainParticipant) -> InstanceHandle {
+pub fn install_subscriber_with(p: &mut DcpsDomainParticipant, reader: Option<UserDefinedDataReader>) -> InstanceHandle {
     let c = p.subscriber_counter;
-    let h = InstanceHandle::new(Guid::new(sp::PREFIX, EntityId::new([c, 0, 0], crate::transport::types::USER_DEFINED_READER_GROUP)).into());
+    let h = subscriber_handle(c);
     p.subscriber_counter = c + 1;
-    let e = crate::dcps::dcps_domain_participant::user_defined_subscriber::UserDefinedSubscriber::new(
+    let mut e = crate::dcps::dcps_domain_participant::user_defined_subscriber::UserDefinedSubscriber::new(
         h,
         crate::infrastructure::qos::SubscriberQos::const_default(),
         None,
         sp::mask_from_bits(0),
     );
+    if let Some(r) = reader {
+        e.data_reader_list.push(r);
+    }
     p.domain_participant.user_defined_subscriber_list.push(e);
     h
+}
+pub fn install_publisher(p: &mut DcpsDomainParticipant) -> InstanceHandle {
+    install_publisher_with(p, None)
+}
+pub fn install_subscriber(p: &mut DcpsDomainParticipant) -> InstanceHandle {
+    install_subscriber_with(p, None)
 }
 
 /// Entity id / GUID / handle `create_data_writer` computes for writer number `n` of the publisher whose
